@@ -504,7 +504,37 @@ Definition veq0 (h : heap) : eqfun := veq eq_fuel h.
 
 (* PartialOrd for Value *)
 Inductive cres := CSome (c : comparison) | CNone | CCrash.
-Definition vcmp (h : heap) (a b : value) : cres :=
+
+(* cmp_int_real: an integer against a real by their exact values (d3f91fb; the pinned tree rounded the integer
+   to f64 first, A-30) *)
+Definition two63 : Z := 9223372036854775808%Z.
+Definition cmp_int_real (i : Z) (r : N) : cres :=
+  match f_cmp F r r with
+  | None => CNone
+  | Some _ =>
+      match f_cmp F r (f_of_Z F two63) with
+      | Some Gt | Some Eq => CSome Lt
+      | _ =>
+          match f_cmp F r (f_of_Z F (- two63)) with
+          | Some Lt => CSome Gt
+          | _ =>
+              let w := f_to_i64 F r in        (* r.trunc() as i64, exact in this range *)
+              match (i ?= w)%Z with
+              | Eq =>
+                  match f_cmp F r (f_of_Z F w) with   (* sign of r - whole *)
+                  | Some Gt => CSome Lt
+                  | Some Lt => CSome Gt
+                  | _ => CSome Eq
+                  end
+              | c => CSome c
+              end
+          end
+      end
+  end.
+Definition cres_rev (c : cres) : cres :=
+  match c with CSome Lt => CSome Gt | CSome Gt => CSome Lt | c => c end.
+
+Definition vcmp_cast (h : heap) (a b : value) : cres :=
   match cast_match h a b with
   | None => CCrash
   | Some (VObj x, VObj y) =>
@@ -521,6 +551,14 @@ Definition vcmp (h : heap) (a b : value) : cres :=
   | Some (VInt x, VInt y) => CSome (x ?= y)%Z
   | Some (VReal x, VReal y) => match f_cmp F x y with Some c => CSome c | None => CNone end
   | Some _ => CNone
+  end.
+
+Definition vcmp (h : heap) (a b : value) : cres :=
+  match a, b with
+  | VReal _, VReal _ => vcmp_cast h a b
+  | VReal r, o => match to_i64 h o with Some i => cres_rev (cmp_int_real i r) | None => CCrash end
+  | o, VReal r => match to_i64 h o with Some i => cmp_int_real i r | None => CCrash end
+  | _, _ => vcmp_cast h a b
   end.
 
 Definition vbool (b : bool) : value := VInt (if b then 1 else 0)%Z.
